@@ -113,6 +113,13 @@ class NetworkFamily:
             obj.set_link_attribute("w", arr(link_attr(v)))
         elif m == "del_link_attribute":
             obj.del_link_attribute("w")
+        elif m == "randomly_rewire":
+            # degree-preserving rewiring; token 3 is bound to whatever graph results (the twin is built from it)
+            import random as pyrandom
+            pyrandom.seed(7)
+            np.random.seed(7)
+            obj.randomly_rewire(4)
+            ADJ[self.directed][3] = np.array(obj.adjacency)
         else:
             raise ValueError(m)
 
@@ -583,7 +590,7 @@ def apply_abs(a, m, v):
         m = m[:-5]
     if m.endswith("~getset"):
         m = m[:-7]
-    if m in ("adjacency", "set_edge_list"):
+    if m in ("adjacency", "set_edge_list", "randomly_rewire"):
         a["A"], a["LA"] = v, 0
     elif m == "node_weights":
         a["W"] = v
